@@ -132,19 +132,29 @@ func eval(env *EvalEnv, fn *Func, top, intTop int) CallResult {
 		case opCall:
 			id := decode16(code, pc+1)
 			fn := env.userFuncs[id]
-			result := eval(env, fn, len(stack.objects)-fn.numObjectParams, len(stack.ints)-fn.numIntParams)
+			argsTop, argsIntTop := len(stack.objects)-fn.numObjectParams, len(stack.ints)-fn.numIntParams
+			result := eval(env, fn, argsTop, argsIntTop)
+			// Pop the callee's frame (its arguments and whatever it left above them).
+			stack.objects = stack.objects[:argsTop]
+			stack.ints = stack.ints[:argsIntTop]
 			stack.Push(result.Value())
 			pc += 3
 		case opIntCall:
 			id := decode16(code, pc+1)
 			fn := env.userFuncs[id]
-			result := eval(env, fn, len(stack.objects)-fn.numObjectParams, len(stack.ints)-fn.numIntParams)
+			argsTop, argsIntTop := len(stack.objects)-fn.numObjectParams, len(stack.ints)-fn.numIntParams
+			result := eval(env, fn, argsTop, argsIntTop)
+			stack.objects = stack.objects[:argsTop]
+			stack.ints = stack.ints[:argsIntTop]
 			stack.PushInt(result.IntValue())
 			pc += 3
 		case opVoidCall:
 			id := decode16(code, pc+1)
 			fn := env.userFuncs[id]
-			eval(env, fn, len(stack.objects)-fn.numObjectParams, len(stack.ints)-fn.numIntParams)
+			argsTop, argsIntTop := len(stack.objects)-fn.numObjectParams, len(stack.ints)-fn.numIntParams
+			eval(env, fn, argsTop, argsIntTop)
+			stack.objects = stack.objects[:argsTop]
+			stack.ints = stack.ints[:argsIntTop]
 			pc += 3
 
 		case opJump:
